@@ -22,13 +22,15 @@ USER_EXC_PARENT = {}  # exception classes defined by the evaluated code -> the b
 
 
 def canonical_kind(kind):
-    k = kind
+    k = root = kind
     for _ in range(8):
         if k not in USER_EXC_PARENT:
             break
+        root = k
         k = USER_EXC_PARENT[k]
-    # a user class directly under Exception / Warning keeps its own name (that name is what distinguishes it)
-    return kind if k in ("Exception", "BaseException", "Warning", "UserWarning") else k
+    # a user class directly under Exception / Warning keeps its own name (that name is what distinguishes it); a class derived
+    # from such a class counts as that class ("raises VerilogParsingError" is satisfied by PortListError(VerilogParsingError))
+    return root if k in ("Exception", "BaseException", "Warning", "UserWarning") else k
 
 
 class RaisedKind(str):
@@ -80,6 +82,9 @@ class Model:
 
 
 _SAFE_BUILTINS = {
+    # id(): CPython's own - unique among the objects alive at the same time, so the address of a dead object of an earlier call
+    # may come back for a new one (which is exactly what state keyed on id() has to cope with)
+    "id": id,
     "len": len,
     "set": set,
     "list": list,
@@ -340,6 +345,12 @@ class MiniEval:
         if isinstance(n.func, ast.Attribute) and n.func.attr == "__init__" and isinstance(n.func.value, ast.Call) and isinstance(n.func.value.func, ast.Name) and n.func.value.func.id == "super" \
                 and self.env.get("__class__") is None:
             return None  # super().__init__(...) of a library base class: no model state
+        if isinstance(n.func, ast.Name) and n.func.id == "setattr" and "setattr" not in self.env and len(n.args) == 3 and not n.keywords:
+            obj, name, value = (self.ev(a) for a in n.args)
+            if isinstance(obj, Model) and getattr(type(obj), "_allow_private", False) and isinstance(name, str) and type(obj).__name__ in ("UserClass", "UserInstance", "EnumClass"):
+                setattr(obj, name, value)  # classes / objects the evaluated code defines itself
+                return None
+            raise Unsupported(f"setattr on {type(obj).__name__}")
         if isinstance(n.func, ast.Name) and n.func.id in ("getattr", "hasattr") and n.func.id not in self.env and 2 <= len(n.args) <= 3:
             obj = self.ev(n.args[0])
             name = self.ev(n.args[1])
@@ -407,6 +418,8 @@ class MiniEval:
             # e.g. "_".join([Tree(...)]) - a genuine TypeError of the evaluated code
             raise ModelRaise("TypeError", f"{norm(n)[:60]}: {e}")
         except AttributeError as e:
+            if type(f).__name__ in ("methodcaller", "attrgetter") and args and _plain_value(args[0]):
+                raise ModelRaise("AttributeError", str(e))  # CPython's own answer for its own data types (None has no .group)
             raise Unsupported(f"call {norm(n)} failed in the model: {e}")
 
     def ev_Subscript(self, n):
@@ -665,6 +678,8 @@ class MiniEval:
                 # a private attribute the evaluated code itself introduces (a cache, a flag): kept apart from model internals
                 obj.__dict__.setdefault("_user_attrs", set()).add(target.attr)
                 obj.__dict__[target.attr] = value
+            elif hasattr(obj, "_cg_fdef") and target.attr in ("__name__", "__qualname__", "__doc__", "__wrapped__", "__module__"):
+                setattr(obj, target.attr, value)  # the descriptive attributes of a function object
             else:
                 raise Unsupported(f"attribute store on {type(obj).__name__}")
         elif isinstance(target, ast.Subscript):
@@ -948,7 +963,8 @@ class BlockInterp:
                 env["__class__"] = dcls
                 env["__super_self__"] = args[0] if args else None
             sub = BlockInterp(env, on_call=outer.on_call, on_raise=outer.on_raise, max_steps=outer.max_steps)
-            sub.me.env[fdef.name] = closure
+            if fdef.name not in known and (a.vararg is None or a.vararg.arg != fdef.name) and (a.kwarg is None or a.kwarg.arg != fdef.name):
+                sub.me.env[fdef.name] = closure  # a nested function may call itself; a parameter of the same name shadows it
             if is_gen:
                 def run_body(yield_fn):
                     sub.yield_fn = sub.me.yield_fn = yield_fn
